@@ -45,6 +45,11 @@ def _txt(draw, tier):
     for _ in range(nt):
         if draw(st.sampled_from([False, False, False, True])):
             trains.append([])
+        elif draw(st.integers(0, 24)) == 0:
+            # a long train (more than a thousand spikes)
+            k = draw(st.sampled_from([1025, 1500, 2049, 3000]))
+            a = draw(st.integers(-64, 64)) / 8.0
+            trains.append([a + j / 16.0 for j in range(k)])
         else:
             vals = draw(st.lists(_value(), min_size=1, max_size=8 if tier == "quick" else 20,
                                  unique=True))
@@ -133,6 +138,8 @@ def classify(case):
             labels.append("scalar_edge")
         if any(t != sorted(t) for t in tr):
             labels.append("unsorted_line")
+        if any(len(t) > 1024 for t in tr):
+            labels.append("train_longer_than_1024")
     elif k == "series":
         r, c = len(case["rows"]), len(case["rows"][0])
         if r == 1:
